@@ -57,6 +57,7 @@ def dispatch (fn : String) (args : List (List Int)) : String :=
   | "Fam.generalized_stars", (a0 :: _) :: (a1 :: _) :: [] => showRes (Cv.PyGen.Fam.generalized_stars a0 a1)
   | "Fam.rapaport_m1", (a0 :: _) :: [] => showRes (Cv.PyGen.Fam.rapaport_m1 a0)
   | "Fam.rapaport_m2", (a0 :: _) :: [] => showRes (Cv.PyGen.Fam.rapaport_m2 a0)
+  | "Fam.all_cycles", (a0 :: _) :: [] => showRes (Cv.PyGen.Fam.all_cycles a0)
   | "Fam.lsl_cycles", (a0 :: _) :: (a1 :: _) :: [] => showRes (Cv.PyGen.Fam.lsl_cycles a0 (a1 != 0))
   | "Fam.wrapped_k_cycles", (a0 :: _) :: (a1 :: _) :: [] => showRes (Cv.PyGen.Fam.wrapped_k_cycles a0 a1)
   | "Fam.larx", (a0 :: _) :: [] => showRes (Cv.PyGen.Fam.larx a0)
